@@ -223,7 +223,8 @@ def judge (s : Fs) (o : Obs) : Fs × List String :=
     | none => (s, [])
     | some x =>
       if s.opened.contains (o.conn, o.fid) && !s.isDir x && !s.xattr.contains (o.conn, o.fid) then
-        (s, if !ok o then ["read-on-an-open-fid-failed"]
+        -- (a fid opened write-only refuses reads with EPERM before the backend: the session layer's rule, C04)
+        (s, if !ok o then (if o.errno == 1 && o.ncalls == 0 then [] else ["read-on-an-open-fid-failed"])
             else if o.data == digits x then [] else [s!"read-returned-the-content-of-another-object-fid-denotes-{x}"])
       else (s, [])
   | 120 => (if ok o then s.unbind o.conn o.fid else s, [])
